@@ -47,6 +47,67 @@ def _one(args):
         shutil.rmtree(tmp, ignore_errors=True)
 
 
+FLAGS = ("chunked_reading_enabled", "reached_optional_field", "reached_dummy")
+FLAG_WRITERS = {
+    # the only functions allowed to assign a context flag: each is under a contract whose `modifies` names it
+    "ObjectGenerationContext.__init__", "ObjectCodeGenerator._generate_field", "ObjectCodeGenerator._generate_array",
+    "ObjectCodeGenerator._generate_length", "ObjectCodeGenerator._generate_dummy", "ObjectCodeGenerator._generate_switch",
+    "ObjectCodeGenerator._generate_chunked", "ObjectCodeGenerator._generate_break",
+}
+
+
+def flag_frame_scan(repo_root):
+    """the frame assumption behind the placement contracts, discharged syntactically on every run: the calls
+    those contracts treat as opaque (string building, builders, XML accessors, FieldCodeGenerator) never
+    write one of the three context flags.  Every assignment / deletion of an attribute with one of the flag
+    names anywhere under protocol_code_generator must sit in a function of FLAG_WRITERS, and nothing in the
+    generator reaches attributes reflectively (setattr / __dict__ / vars / __setattr__ / exec / eval)."""
+    import ast as A
+    bad = []
+    scanned = 0
+    root = os.path.join(repo_root, "protocol_code_generator")
+    for d, _, fs in os.walk(root):
+        for fn in fs:
+            if not fn.endswith(".py"):
+                continue
+            path = os.path.join(d, fn)
+            tree = A.parse(open(path).read())
+            scanned += 1
+
+            def visit(node, scope):
+                for ch in A.iter_child_nodes(node):
+                    sc = scope
+                    if isinstance(ch, (A.FunctionDef, A.AsyncFunctionDef, A.ClassDef)):
+                        sc = scope + [ch.name]
+                    tg = []
+                    if isinstance(ch, A.Assign):
+                        tg = ch.targets
+                    elif isinstance(ch, (A.AugAssign, A.AnnAssign)):
+                        tg = [ch.target]
+                    elif isinstance(ch, A.Delete):
+                        tg = ch.targets
+                    elif isinstance(ch, (A.For, A.comprehension)):
+                        tg = [ch.target]
+                    elif isinstance(ch, A.NamedExpr):
+                        tg = [ch.target]
+                    elif isinstance(ch, A.With):
+                        tg = [i.optional_vars for i in ch.items if i.optional_vars is not None]
+                    for t in tg:
+                        for x in A.walk(t):
+                            if isinstance(x, A.Attribute) and x.attr in FLAGS and ".".join(scope[-2:]) not in FLAG_WRITERS:
+                                bad.append(f"{os.path.relpath(path, repo_root)}:{ch.lineno} assigns .{x.attr} in {'.'.join(scope) or '<module>'}")
+                    if isinstance(ch, A.Call):
+                        f = ch.func
+                        nm = f.id if isinstance(f, A.Name) else (f.attr if isinstance(f, A.Attribute) else None)
+                        if nm in ("setattr", "delattr", "vars", "exec", "eval", "__setattr__", "__delattr__"):
+                            bad.append(f"{os.path.relpath(path, repo_root)}:{ch.lineno} reflective {nm}() in {'.'.join(scope) or '<module>'}")
+                    if isinstance(ch, A.Attribute) and ch.attr == "__dict__":
+                        bad.append(f"{os.path.relpath(path, repo_root)}:{ch.lineno} __dict__ access in {'.'.join(scope) or '<module>'}")
+                    visit(ch, sc)
+            visit(tree, [])
+    return bad, scanned
+
+
 def leaf_guards(tier, seed):
     """the proved part: contracts on the generator's validation functions (E1)"""
     from checks.props import PROPS
@@ -64,6 +125,13 @@ def run(tier, seed):
     t0 = time.time()
     lrc, leaf = leaf_guards(tier, seed)
     if lrc == 3:
+        return 3
+    frame_bad, frame_files = flag_frame_scan(repo.REPO)
+    leaf["flag_frame_scan"] = {"files_scanned": frame_files, "violations": frame_bad,
+                               "what": "no function outside the contracted flag writers assigns chunked_reading_enabled / "
+                                       "reached_optional_field / reached_dummy; no reflective attribute access in the generator"}
+    if frame_files == 0:
+        print("CHECKER-ERROR property=C17 frame scan found no generator sources")
         return 3
     tasks = []
     oracle_disagreements = []
@@ -155,7 +223,20 @@ def run(tier, seed):
         print(line)
     print(f"C17: {len(tasks)} ill-formed specifications ({n_catalogue} catalogue x position, {len(tasks) - n_catalogue} enumerated), "
           f"{len(rules)} rules, {len(failures)} accepted by the generator (bounded stand-in), {round(time.time() - t0, 1)} s")
+    if frame_bad and not failures:
+        # the proof's frame assumption no longer holds and the bounded runs show no accepted ill-formed spec
+        os.makedirs(os.path.join(VERIF, "replays"), exist_ok=True)
+        path = os.path.join(VERIF, "replays", "C17-frame.json")
+        with open(path, "w") as fh:
+            json.dump({"property": "C17", "obligation": "flag-frame-scan", "custom_replay": "checks.c17",
+                       "inputs": None, "no_failing_input_found": True, "verifier": {"output": frame_bad}}, fh, indent=1)
+        for b in frame_bad[:6]:
+            print(f"  failed obligation flag-frame-scan: {b}")
+        print(f"VIOLATION property=C17 replay={path} no-failing-input-found")
+        return 1
     if failures:
+        for b in frame_bad[:6]:
+            print(f"  failed obligation flag-frame-scan: {b}")
         os.makedirs(os.path.join(VERIF, "replays"), exist_ok=True)
         for n, f in enumerate(failures[:6]):
             path = os.path.join(VERIF, "replays", f"C17-{n}.json")
@@ -169,6 +250,10 @@ def run(tier, seed):
 
 
 def replay(rp):
+    if rp.get("obligation") == "flag-frame-scan":
+        bad, n = flag_frame_scan(repo.REPO)
+        print(f"flag frame scan over {n} files: {bad}")
+        return 1 if bad else 0
     f = rp["inputs"]
     rule, where, rc, err, written = _one((f["rule"], f["where"], f["docs"], "t.py", repo.REPO))
     print(f"generator exit code {rc} ({err}); files written for the offending class: {written}")
